@@ -45,6 +45,16 @@ type c07Result struct {
 
 // c07Step performs one checked Refilter on a ready node (quiet world).
 func c07Step(w *world, n *node, next int) c07Result {
+	return c07StepDo(w, n, next, func() { w.refilter(n, next) })
+}
+
+// c07StepRaw: the same with one of the unwrapped accept-everything spellings (reference: family
+// member 0, accept-all).
+func c07StepRaw(w *world, n *node, spelling int) c07Result {
+	return c07StepDo(w, n, 0, func() { w.refilterRawNull(n, spelling) })
+}
+
+func c07StepDo(w *world, n *node, next int, refilter func()) c07Result {
 	before := listContent(w, n.leaf.Cache(), n.path())
 	// the parent's content comes from the reference model (the filters on the parent's path applied to
 	// the controller's view), not from the parent's own List(): a parent that lists wrongly must not be
@@ -63,7 +73,7 @@ func c07Step(w *world, n *node, next int) c07Result {
 	}
 	prev := n.filt
 	i := n.eventCount()
-	w.refilter(n, next)
+	refilter()
 	w.barrier()
 	evs := n.eventsFrom(i)
 	after := listContent(w, n.leaf.Cache(), n.path())
@@ -259,6 +269,20 @@ func TestC07_Random(t *testing.T) {
 				chain++
 				both = both || (r.removed > 0 && r.added > 0)
 				equalNonEmpty = equalNonEmpty || (r.equalFilter && r.retained > 0)
+			},
+			"refilterRawAcceptAll": func(t *rapid.T) {
+				// an unwrapped accept-everything spelling (Null(), And(), Not(All()), Labels({}), ...): exactly
+				// the parent objects not yet held are created, nothing is deleted
+				if rapid.IntRange(0, 2).Draw(t, "rarely") != 0 {
+					t.Skip("not now")
+				}
+				w.barrier()
+				prevFilt := n.filt
+				r := c07StepRaw(w, n, rapid.IntRange(0, len(rawAcceptAll)-1).Draw(t, "spelling"))
+				if r.removed != 0 {
+					w.fail("Refilter %s -> an accept-everything filter removed %d objects", w.filtName(prevFilt), r.removed)
+				}
+				chain++
 			},
 			"refilterNear": func(t *rapid.T) {
 				// a generated filter structurally close to the current one (same constructor, one argument or
